@@ -137,6 +137,11 @@ func genC01(tier string, r *rng, emit func(string)) {
 			for i := -1; i <= prod(sh)+1; i++ {
 				emit(fmt.Sprintf("itol %d %s %s", i, fints(sh), fints(st)))
 			}
+			// negative indices: the quotient and remainder truncate towards zero (Go's / and %) in
+			// every build, assembly or not
+			for _, i := range []int{-2, -3, -7, -8, -9, -15, -16, -17, -1000} {
+				emit(fmt.Sprintf("itol %d %s %s", i, fints(sh), fints(st)))
+			}
 		}
 	}
 	for si, sh := range shapes {
